@@ -1,5 +1,12 @@
 // top level: one target -> Lean text (included into tr.rs)
 
+/// signature records (JSON objects) of everything translated, written to Gen/signatures.json
+pub static SIGS: std::sync::Mutex<Vec<String>> = std::sync::Mutex::new(Vec::new());
+
+fn jstr(s: &str) -> String {
+    format!("{:?}", s)
+}
+
 fn quote_source(texts: &BTreeMap<String, Vec<String>>, krate: &str, start: usize, end: usize) -> String {
     let mut s = String::new();
     if let Some(lines) = texts.get(krate) {
@@ -90,14 +97,25 @@ fn translate_struct(idx: &Index, reg: &Registry, t: &Target) -> R<String> {
         write!(gens, " ({} : Nat)", lean_ident(c)).unwrap();
     }
     writeln!(out, "structure {}{} where", t.lean_name, gens).unwrap();
+    let mut frecs = Vec::new();
     for (i, f) in st.fields.iter().enumerate() {
         let fty = tr.conv_ty(&f.ty);
         let fname = match &f.ident {
             Some(id) => lean_ident(&id.to_string()),
             None => format!("_{}", i),
         };
-        writeln!(out, "  {} : {}", fname, tr.lean_ty(&fty).map_err(|e| format!("field {}: {}", fname, e))?).unwrap();
+        let lt = tr.lean_ty(&fty).map_err(|e| format!("field {}: {}", fname, e))?;
+        writeln!(out, "  {} : {}", fname, lt).unwrap();
+        frecs.push(format!("{{\"name\": {}, \"lean\": {}, \"rust\": {}}}", jstr(&fname), jstr(&lt), jstr(&tr.ty_sig(&fty))));
     }
+    SIGS.lock().unwrap().push(format!(
+        "{{\"kind\": \"struct\", \"group\": {}, \"lean\": {}, \"generics\": [{}], \"const_generics\": [{}], \"fields\": [{}]}}",
+        jstr(&t.group),
+        jstr(&t.lean_name),
+        tr.generics.iter().map(|g| jstr(g)).collect::<Vec<_>>().join(", "),
+        st.generics.const_params().map(|p| jstr(&lean_ident(&p.ident.to_string()))).collect::<Vec<_>>().join(", "),
+        frecs.join(", ")
+    ));
     if tr.generics.is_empty() && tr.const_generics.is_empty() {
         writeln!(out, "deriving Repr, DecidableEq").unwrap();
     }
@@ -120,18 +138,30 @@ fn translate_enum(idx: &Index, reg: &Registry, t: &Target) -> R<String> {
     writeln!(out, "/-- Rust: `enum {}` ({}) -/", name, path).unwrap();
     let gens: String = tr.generics.iter().map(|g| format!(" ({} : Type)", g)).collect();
     writeln!(out, "inductive {}{} where", t.lean_name, gens).unwrap();
+    let mut vrecs = Vec::new();
     for v in &en.variants {
         let mut args = String::new();
+        let mut ftys = Vec::new();
         for (i, f) in v.fields.iter().enumerate() {
             let fty = tr.conv_ty(&f.ty);
             let fname = match &f.ident {
                 Some(id) => lean_ident(&id.to_string()),
                 None => format!("a{}", i),
             };
-            write!(args, " ({} : {})", fname, tr.lean_ty(&fty)?).unwrap();
+            let lt = tr.lean_ty(&fty)?;
+            write!(args, " ({} : {})", fname, lt).unwrap();
+            ftys.push(format!("{{\"lean\": {}, \"rust\": {}}}", jstr(&lt), jstr(&tr.ty_sig(&fty))));
         }
         writeln!(out, "  | {}{}", lean_ident(&v.ident.to_string()), args).unwrap();
+        vrecs.push(format!("{{\"name\": {}, \"fields\": [{}]}}", jstr(&lean_ident(&v.ident.to_string())), ftys.join(", ")));
     }
+    SIGS.lock().unwrap().push(format!(
+        "{{\"kind\": \"enum\", \"group\": {}, \"lean\": {}, \"generics\": [{}], \"variants\": [{}]}}",
+        jstr(&t.group),
+        jstr(&t.lean_name),
+        tr.generics.iter().map(|g| jstr(g)).collect::<Vec<_>>().join(", "),
+        vrecs.join(", ")
+    ));
     if tr.generics.is_empty() {
         writeln!(out, "deriving Repr, DecidableEq").unwrap();
     }
@@ -329,6 +359,24 @@ fn translate_fn(idx: &Index, reg: &Registry, t: &Target, texts: &BTreeMap<String
         write!(sig, " ({} : {})", lean_ident(n), tr.lean_ty(t).map_err(|e| format!("parameter {}: {}", n, e))?).unwrap();
     }
     let ret_l = tr.lean_ty(&ret).map_err(|e| format!("return type: {}", e))?;
+    {
+        let mut ps = Vec::new();
+        for (n, ty) in &params {
+            ps.push(format!("{{\"name\": {}, \"lean\": {}, \"rust\": {}}}", jstr(&lean_ident(n)), jstr(&tr.resolve_placeholders(&tr.lean_ty(ty)?)?), jstr(&tr.ty_sig(ty))));
+        }
+        let rec = format!(
+            "{{\"kind\": \"fn\", \"group\": {}, \"lean\": {}, \"rust\": {}, \"fuel\": {}, \"generics\": [{}], \"const_generics\": [{}], \"params\": [{}], \"ret\": {}}}",
+            jstr(&t.group),
+            jstr(&t.lean_name),
+            jstr(&f.path),
+            rf.fuel,
+            tr.generics.iter().map(|g| jstr(g)).collect::<Vec<_>>().join(", "),
+            tr.const_generics.iter().map(|g| jstr(&lean_ident(g))).collect::<Vec<_>>().join(", "),
+            ps.join(", "),
+            jstr(&tr.resolve_placeholders(&ret_l)?)
+        );
+        SIGS.lock().unwrap().push(rec);
+    }
     let mut out = String::new();
     let krate = krate_of(&f.path);
     let start = f.sig.span().start().line;
